@@ -71,6 +71,13 @@ def gen_subscript(rng, var, cfg, depth_vars):
         return lit(pick(rng, [1, 2, 3]))
     if kind == "scalar":
         return ref(pick(rng, INT_SCALARS))
+    if kind == "kdiv":
+        # integer division of a loop-invariant scalar: k/2, (k+1)/2, ...
+        base = ref(pick(rng, INT_SCALARS))
+        if rng.random() < 0.5:
+            base = binop("+", base, lit(pick(rng, [1, 1, 3])))
+        e = binop("/", base, lit(pick(rng, [2, 2, 4])))
+        return binop("+", e, lit(1)) if rng.random() < 0.3 else e
     if kind == "i+d":
         return binop("+", ref(var), ref(pick(rng, D_SCALARS)))
     if kind == "other" and len(depth_vars) > 1:
@@ -88,7 +95,7 @@ def gen_subscript(rng, var, cfg, depth_vars):
 SUBS_PLAIN = [(6, "i"), (3, "i+c"), (1, "c*i"), (1, "const"), (1, "other")]
 SUBS_WILD = [(4, "i"), (3, "i+c"), (2, "c*i"), (1, "c*i+c"), (2, "i/c"),
              (2, "mod"), (2, "n-i"), (2, "idx"), (1, "const"), (2, "scalar"),
-             (1, "other"), (1.5, "i+j"), (1, "i-j")]
+             (1, "other"), (1.5, "i+j"), (1, "i-j"), (1.5, "kdiv")]
 SUBS_SAFE = [(8, "i"), (1, "c*i"), (1, "other")]
 
 
@@ -183,6 +190,28 @@ def gen_assign(rng, cfg, vars_):
         return {"k": "assign", "lhs": lhs,
                 "rhs": binop("+", src, aref(other, [ref(vars_[-1]),
                                                     ref(vars_[0])]))}
+    if kind == "stencil_kdiv":
+        # a loop-carried shift in one subscript and truncating divisions of
+        # a loop-invariant scalar in the other: c(i, k/2) = c(i+1, (k+1)/2)
+        # (k/2 and (k+1)/2 are the same element for every even k)
+        arr = pick(rng, REAL_ARRAYS2)
+        var = vars_[-1]
+        sc = pick(rng, INT_SCALARS)
+        pairs = [(binop("/", ref(sc), lit(2)),
+                  binop("/", binop("+", ref(sc), lit(1)), lit(2))),
+                 (binop("/", binop("+", ref(sc), lit(1)), lit(2)),
+                  binop("+", binop("/", ref(sc), lit(2)), lit(1))),
+                 (binop("/", binop("+", ref(sc), lit(3)), lit(4)),
+                  binop("/", binop("+", ref(sc), lit(1)), lit(4))),
+                 (binop("/", ref(sc), lit(2)), binop("/", ref(sc), lit(2)))]
+        s1, s2 = pick(rng, pairs)
+        if rng.random() < 0.5:
+            s1, s2 = s2, s1
+        d = pick(rng, [1, -1, 1, 2])
+        shifted = binop("+" if d > 0 else "-", ref(var), lit(abs(d)))
+        return {"k": "assign", "lhs": aref(arr, [ref(var), s1]),
+                "rhs": binop("+", aref(arr, [shifted, s2]),
+                             lit("1.0", "real"))}
     if kind == "scal":
         name = pick(rng, REAL_SCALARS)
         st = {"k": "assign", "lhs": ref(name),
@@ -275,7 +304,8 @@ def gen_program(rng, mode="omp"):
     cfg = {
         "subscripts": subs,
         "stmts": [(6, "arr"), (2, "arr2"), (3, "scal"), (1, "iscal"),
-                  (0.6, "accum"), (0.5, "iarr"), (2, "stencil2")],
+                  (0.6, "accum"), (0.5, "iarr"), (2, "stencil2"),
+                  (1, "stencil_kdiv")],
         "p_if": pick(rng, [0.0, 0.15, 0.3]),
         "p_inner": pick(rng, [0.0, 0.2, 0.35]),
         # write-only scalars in a loop are a known finding (KF-C09-3);
